@@ -575,8 +575,11 @@ def find1(cfg):
     return res
 
 
-def ord1(cfg):
-    res = RuleResult('ORD-1', 'the insert position computed for the dense node classes (I4::get_insert_pos, I16::get_sorted_key_array_insert_position) is the rank of the new key byte among the node\'s sorted, distinct key bytes - so add_to_nonfull keeps the key array sorted, which find / enumeration / seek rely on (lane-wise three-valued evaluation of the SSE comparison incl. the repository\'s own _mm_cmple_epu8, child count and rank enumerated exhaustively, lanes beyond the child count unknown)')
+def ord1(cfg, mode='rank'):
+    """mode 'rank' (C02 / C09 / C16): the position is the rank of the new byte - the key array stays sorted.
+    mode 'range' (C01 / C03): the position lies in 0..count - no slot is lost or overwritten; point lookups compare every
+    slot for equality and do not depend on the order"""
+    res = RuleResult('ORD-1', ('the insert position computed for the dense node classes lies in 0 .. child count for every content of the node (no live slot overwritten, no gap below the count): point lookups compare all slots for equality and need nothing more; that it is the RANK of the new byte is what ordered enumeration needs (C02 / C09). ' if mode == 'range' else '') + 'the insert position computed for the dense node classes (I4::get_insert_pos, I16::get_sorted_key_array_insert_position) is the rank of the new key byte among the node\'s sorted, distinct key bytes - so add_to_nonfull keeps the key array sorted, which find / enumeration / seek rely on (lane-wise three-valued evaluation of the SSE comparison incl. the repository\'s own _mm_cmple_epu8, child count and rank enumerated exhaustively, lanes beyond the child count unknown)')
     for f in cfg.functions:
         m = CLS.match(f.cls)
         if not m or not f.blocks or f.short not in ('get_insert_pos', 'get_sorted_key_array_insert_position'):
@@ -599,7 +602,7 @@ def ord1(cfg):
                     if len(f.params) == 2:
                         params[f.params[1]['did']] = (1 << count) - 1
                     for (asg, r) in explore(lambda a: Lanes(f, n, count, None, params=params, rank=rank, assign=a)):
-                        if r != rank:
+                        if (r != rank) if mode == 'rank' else not (isinstance(r, int) and 0 <= r <= count):
                             stale = ' (stale slots %s compared as "in order")' % sorted(i for i, v in asg.items() if v == T) if any(v == T for v in asg.values()) else ''
                             bad = ('child count %d, %d key bytes below the new one%s' % (count, rank, stale), r, rank)
                             break
@@ -608,6 +611,11 @@ def ord1(cfg):
                 if bad:
                     break
         except SignedOrder as so:
+            if mode == 'range':
+                # the rank in ANOTHER total order of the bytes: still a position in 0..count
+                res.ob(True, {'rule': 'ORD-1', 'method': 'I%s::%s (%s)' % (n, f.short, flavor), 'site': fileline(f.loc), 'verdict': 'discharged (range only): signed comparison %s - the position is a rank in the signed byte order, inside 0..count; sortedness is decided under C02 / C09' % so})
+                res.note('ORD-1 (range mode): %s uses the signed byte operation %s; the slot range is respected, the ORDER of the key array is not - reported under C02 / C09 / C16' % (f.short, so))
+                continue
             res.ob(False, {'rule': 'ORD-1', 'method': 'I%s::%s (%s)' % (n, f.short, flavor), 'site': fileline(f.loc), 'verdict': 'VIOLATION: signed comparison %s on key bytes' % so})
             res.find(f, f.loc, 'I%s::%s: the insert position is computed with the SIGNED byte operation %s applied directly to the key bytes: key bytes >= 0x80 compare below smaller ones, so a node that mixes both halves of the byte range is no longer sorted by key byte - lookups still work, every ordered enumeration (scans, seek) through the node goes wrong' % (n, f.short, so), key='ORD-1:I%s:signed' % n, config=cfg.name)
             continue
